@@ -744,6 +744,18 @@ impl SubCheck for MemberEnum {
 	}
 }
 
+/// one message through a fresh session (fuzz target); failures whose signature is an open known finding are tolerated
+pub fn bytes_oracle(data: &[u8]) -> Option<String> {
+	// (libFuzzer aborts on any panic, also on the intentional one of the `blocking_panic` handler)
+	if data.len() > 20_000 || data.windows(14).any(|w| w == b"blocking_panic") {
+		return None;
+	}
+	let mut obs = Obs::new();
+	run_bytes_session(&[data.to_vec()], data.first().is_some_and(|b| b % 2 == 1), &mut obs);
+	let known = load_known_findings();
+	obs.failures.into_iter().find(|f| !tolerated_signature(&known, "C01", &f.signature)).map(|f| format!("{} — {}", f.signature, f.detail))
+}
+
 pub fn corpus_replay(ctx: &mut Ctx) {
 	let dir = verif_root().join("corpus/c01_server_msg");
 	let mut list = vec![];
@@ -792,6 +804,7 @@ pub fn check(ctx: &mut Ctx) {
 	ctx.run_cases_parallel(&TokenEnum, chunks, 16);
 	ctx.extra.insert("token_enumeration".into(), json!({"alphabet": TOKENS, "max_len": max_len, "sequences": total, "exhaustive_over": "all sequences starting with '{' up to max_len, plus each other first token"}));
 	corpus_replay(ctx);
+	fuzz_campaign(ctx, "c01_server_msg", 150_000, 512);
 }
 
 pub fn replay(file: &serde_json::Value) -> Option<i32> {
